@@ -40,7 +40,7 @@ def octabox(sub=0):
     return dict(bitmap=bitmap, diag=(0, 255, 0, 255), subs=subs)
 
 
-def s_full(version=5, glat_version=3, compress=(), rtl=False, with_collision=True, subboxes=True, glyf=True, extra_attr_glyphs=0, dense_attrs=False, line_ends=False, cmap_edges=False, pass_bits=False, bad_glyph=None, bidi_pass=False):
+def s_full(version=5, glat_version=3, compress=(), rtl=False, with_collision=True, subboxes=True, glyf=True, extra_attr_glyphs=0, dense_attrs=False, line_ends=False, cmap_edges=False, pass_bits=False, bad_glyph=None, bidi_pass=False, feat_pconstraint=False):
     names = ['notdef', 'space', 'a', 'b', 'c', 'd', 'x', 'y', 'z', 'acute', 'grave', 'pseudo', 'astral', 'lig', 'e', 'f']
     glyphs = []
     for i, n in enumerate(names):
@@ -77,7 +77,7 @@ def s_full(version=5, glat_version=3, compress=(), rtl=False, with_collision=Tru
         Rule(0, [S('c')], A('INSERT', 'PUT_GLYPH', 0, 2, 'NEXT', 'NEXT', 'RET_ZERO'), name='c > z c'),
         Rule(1, [S('d'), S('e')], A('PUT_GLYPH', 0, 1, 'NEXT', 'RET_ZERO'), name='e > y / d _'),
     ])
-    p1 = dict(maxloop=2, pconstraint=A('PUSH_BYTE', 1, 'POP_RET'), rules=[
+    p1 = dict(maxloop=2, pconstraint=(A('PUSH_FEAT', 0, 0, 'PUSH_BYTE', 0, 'EQUAL', 'POP_RET') if feat_pconstraint else A('PUSH_BYTE', 1, 'POP_RET')), rules=[      # pass constraint: always / only while feature tst1 == 0
         Rule(0, [S('x')], A('PUSH_BYTE', 5, 'IATTR_SET', SLAT['userDefn'], 0, 'NEXT', 'RET_ZERO'), name='x {user0=5}'),
         Rule(0, [S('f')], A('PUT_COPY', 0, 'PUSH_BYTE', 7, 'IATTR_SET', SLAT['userDefn'], 1, 'NEXT', 'RET_ZERO'),
              A('PUSH_GLYPH_ATTR', 0, GA['ga0'], 0, 'PUSH_BYTE', G['f'], 'EQUAL', 'POP_RET'), name='f {user1=7} if ga0==15'),
@@ -160,6 +160,13 @@ def feat_family():
     base['names'] = {300: 'F', 301: 'S'}
     base['langs'] = [(tag('x y'), [(ids[0], 2)]), (tag(' xyz'), [(ids[1], 5)]), (tag('p qr'), [(ids[4], 2), (ids[5], 5)]), (tag('pq'), [(ids[7], 5)])]
     out['feat_spaceids'] = base
+    # language entries that name feature ids the Feat table does not have (first, middle and last position): the other settings of the entry must still apply
+    base = s_min(); ids = [tag('aaaa'), tag('bbbb'), tag('cccc'), tag('dddd')]; unk = [tag('zz99'), 0x00000009, 0xFFFFFFFF]
+    base['feats'] = [(fid, 300, 0, [(0, 301), (2, 301), (5, 301)]) for fid in ids]
+    base['names'] = {300: 'F', 301: 'S'}
+    base['langs'] = [(tag('ufst'), [(unk[0], 2), (ids[0], 2), (ids[1], 5)]), (tag('umid'), [(ids[0], 5), (unk[1], 2), (ids[2], 2)]), (tag('ulst'), [(ids[1], 2), (ids[3], 5), (unk[2], 5)]),
+                     (tag('uall'), [(unk[0], 2), (unk[1], 5)]), (tag('utwo'), [(unk[0], 2), (unk[2], 2), (ids[3], 2), (ids[0], 5)])]
+    out['feat_unknownlang'] = base
     # ids spread over the whole unsigned 32-bit range (ordering / search by id must be unsigned), referenced by language defaults;
     # several low/high mixes so that any search shape meets a pair of ids that are >= 2^31 apart
     lows = [0x00000002, 0x00000003, 0x00000004, 0x00000005, 0x41424344, 0x7FFFFFFF]; highs = [0x80000000, 0x90000000, 0xA0000001, 0xF7747269, 0xFFFFFFF0, 0xFFFFFFFE]
@@ -176,7 +183,7 @@ def write_all(outdir):
     fonts = {'s_min': s_min(), 's_full': s_full(), 's_full_z': s_full(compress=('Silf', 'Glat')), 's_full_v3': s_full(version=3, glat_version=1, with_collision=False),
              's_full_v4': s_full(version=4, glat_version=2, with_collision=False), 's_full_rtl': s_full(rtl=True), 's_full_nosub': s_full(subboxes=False),
              's_full_zs': s_full(compress=('Silf',)), 's_full_zg': s_full(compress=('Glat',)),
-             's_full_noglyf': s_full(glyf=False), 's_full_extra': s_full(extra_attr_glyphs=3), 's_full_dense': s_full(dense_attrs=True), 's_full_le': s_full(line_ends=True), 's_full_cmapedge': s_full(cmap_edges=True), 's_full_pb': s_full(pass_bits=True), 's_full_bidi': s_full(bidi_pass=True), 's_full_rtl_bidi': s_full(rtl=True, bidi_pass=True), 's_full_badglyph': s_full(bad_glyph='e'), 's_full_badlast': s_full(bad_glyph='f'), 's_full_rtl_le': s_full(rtl=True, line_ends=True)}
+             's_full_noglyf': s_full(glyf=False), 's_full_extra': s_full(extra_attr_glyphs=3), 's_full_dense': s_full(dense_attrs=True), 's_full_le': s_full(line_ends=True), 's_full_cmapedge': s_full(cmap_edges=True), 's_full_pb': s_full(pass_bits=True, feat_pconstraint=True), 's_full_bidi': s_full(bidi_pass=True), 's_full_rtl_bidi': s_full(rtl=True, bidi_pass=True), 's_full_badglyph': s_full(bad_glyph='e'), 's_full_badlast': s_full(bad_glyph='f'), 's_full_rtl_le': s_full(rtl=True, line_ends=True)}
     fonts.update(feat_family())
     index = {}
     for name, spec in fonts.items():
